@@ -22,7 +22,7 @@ theorem pushAll_grown (xs : List Nat) : ∀ (c : Cache),
     rw [pushAll_cons]
     obtain ⟨h1, h2⟩ := ih (c.push x)
     rw [h1, h2, push_data]
-    simp only [List.length_append, List.length_singleton, List.length_cons, growSteps, capAfter]
+    simp only [List.length_append, List.length_cons, growSteps, capAfter]
     unfold Cache.push
     split <;> simp
 
@@ -130,7 +130,7 @@ theorem format_count : ∀ (a : Arg), ((argEvents a).filter isFormat).length = 2
     have hrep : ∀ n, ((List.replicate n Event.pairCopy).filter isFormat).length = 0 := by
       intro n; induction n with
       | zero => rfl
-      | succ n ih => simpa [List.replicate_succ, isFormat] using ih
+      | succ n ih => simp [List.replicate_succ, isFormat]
     simp only [argEvents, countDirect, count_append, format_countL elems]
     split <;> simp [hrep]
   | .optNone _ => by simp [argEvents, countDirect]
